@@ -63,7 +63,11 @@ class Loops:
         self.axioms = {}         # (label, ordinal) -> fn(ex, env, i) -> [formula]  (ghost definitions, assumed only)
         self.post_bind_axioms = {}   # same, evaluated after the loop target is bound (type invariants of host data)
 
+    _idiom_key = None
+
     def loop_key(self, ex, node):
+        if self._idiom_key is not None and isinstance(node, (ast.ListComp, ast.DictComp, ast.While)):
+            return self._idiom_key
         fi = ex.task.finfo
         ordinal = None
         if fi is not None:
@@ -304,7 +308,98 @@ class Loops:
                 on_exit(i)
             return 'exit'
 
+    def accumulator_idiom(self, ex, st, env):
+        """`acc = []` ... `for T in IT: t1 = e1; ...; acc.append(E)`   (or  `acc = {}` ... `acc[K] = V`)
+        with acc a container this activation allocated, still empty and mentioned nowhere else in the loop: the loop
+        IS the comprehension `[E for T in IT]` with the temporaries in front of the element - it gets the same
+        generated invariants (length == index, element K == body at K), so a comprehension rewritten as a loop (or
+        the reverse) proves the same clauses.  Returns True if it ran the loop."""
+        body = list(st.body)
+        if st.orelse or not body:
+            return False
+        last = body[-1]
+        kind = None
+        if isinstance(last, ast.Expr) and isinstance(last.value, ast.Call) and isinstance(last.value.func, ast.Attribute) \
+                and last.value.func.attr == 'append' and isinstance(last.value.func.value, ast.Name) \
+                and len(last.value.args) == 1 and not last.value.keywords and not isinstance(last.value.args[0], ast.Starred):
+            kind, acc, exprs = 'list', last.value.func.value.id, [last.value.args[0]]
+        elif isinstance(last, ast.Assign) and len(last.targets) == 1 and isinstance(last.targets[0], ast.Subscript) \
+                and isinstance(last.targets[0].value, ast.Name) and not isinstance(last.targets[0].slice, ast.Slice):
+            kind, acc, exprs = 'dict', last.targets[0].value.id, [last.targets[0].slice, last.value]
+        if kind is None:
+            return False
+        prelude = body[:-1]
+        for p in prelude:
+            if not (isinstance(p, ast.Assign) and all(isinstance(t, ast.Name) for t in p.targets)):
+                return False
+        mentions = lambda nodes: any(isinstance(x, ast.Name) and x.id == acc for n in nodes for x in ast.walk(n))
+        if mentions(prelude) or mentions(exprs) or mentions([st.iter, st.target]):
+            return False
+        if any(isinstance(x, (ast.Break, ast.Continue, ast.Return, ast.Yield, ast.YieldFrom)) for n in body for x in ast.walk(n)):
+            return False
+        if not env.has(acc):
+            return False
+        v = env.lookup(acc)
+        if not isinstance(v, z3.ExprRef):
+            return False
+        v = L.simp(v)
+        if kind == 'list':
+            if not (z3.is_app(v) and v.decl().name() == 'ListV'):
+                return False
+            ref = v.arg(0)
+            empty = ex.heap.llen(ref) == 0
+        else:
+            if not (z3.is_app(v) and v.decl().name() == 'DictV'):
+                return False
+            ref = v.arg(0)
+            empty = ex.heap.dlen(ref) == 0
+        if ex.check_sat(z3.Not(z3.And(ex.is_fresh(ref), empty))) != z3.unsat:
+            return False
+        gen = ast.comprehension(target=st.target, iter=st.iter, ifs=[], is_async=0)
+        if kind == 'list':
+            node = ast.ListComp(elt=exprs[0], generators=[gen])
+        else:
+            # dict idiom: temporaries before the key; the value follows the key (Python evaluates `acc[K] = V` as V then K,
+            # so only accept it when that order cannot be observed: K is a name or a constant)
+            if not isinstance(exprs[0], (ast.Name, ast.Constant, ast.Attribute)):
+                return False
+            node = ast.DictComp(key=exprs[0], value=exprs[1], generators=[gen])
+        ast.copy_location(node, st)
+        ast.fix_missing_locations(node)
+        # the loop statement itself is the loop the sidecar keys (ordinal) refer to
+        self._idiom_key = self.loop_key(ex, st)
+        try:
+            if kind == 'list':
+                self.list_comp(ex, node, env, prelude=prelude, into=ref, loop_env=env)
+            else:
+                self.dict_comp(ex, node, env, prelude=prelude, into=ref, loop_env=env)
+        finally:
+            self._idiom_key = None
+        return True
+
     def for_loop(self, ex, st, env):
+        if isinstance(st.iter, ast.Call) and isinstance(st.iter.func, ast.Name) and st.iter.func.id == 'iter' \
+                and len(st.iter.args) == 2 and not st.iter.keywords and not st.orelse and not env.has('iter'):
+            # `for T in iter(F, S): BODY`  is  `while True: T = F(); if T == S: break; BODY`  (F, S evaluated once)
+            f, s = '.iter_f%d' % st.lineno, '.iter_s%d' % st.lineno
+            env.vars[f] = ex.eval(st.iter.args[0], env)
+            env.vars[s] = ex.eval(st.iter.args[1], env)
+            loop = ast.While(test=ast.Constant(value=True), orelse=[], body=[
+                ast.Assign(targets=[st.target], value=ast.Call(func=ast.Name(id=f, ctx=ast.Load()), args=[], keywords=[])),
+                ast.If(test=ast.Compare(left=st.target if isinstance(st.target, ast.Name) else ast.Name(id=f, ctx=ast.Load()),
+                                        ops=[ast.Eq()], comparators=[ast.Name(id=s, ctx=ast.Load())]),
+                       body=[ast.Break()], orelse=[])] + list(st.body))
+            if isinstance(st.target, ast.Name):
+                loop.body[1].test.left = ast.Name(id=st.target.id, ctx=ast.Load())
+                ast.copy_location(loop, st)
+                ast.fix_missing_locations(loop)
+                self._idiom_key = self.loop_key(ex, st)
+                try:
+                    return self.while_loop(ex, loop, env)
+                finally:
+                    self._idiom_key = None
+        if self.accumulator_idiom(ex, st, env):
+            return
         key = self.loop_key(ex, st)
         desc = self.describe(ex, ex.eval(st.iter, env))
         if desc.kind == 'seq' and not has_calls(st.body):
@@ -319,6 +414,19 @@ class Loops:
             if z3.is_int_value(n) and n.as_long() <= 8:
                 for k in range(n.as_long()):
                     ex.assign(st.target, self.elem(ex, desc, z3.IntVal(k)), env)
+                    try:
+                        ex.exec_block(st.body, env)
+                    except ContinueEx:
+                        continue
+                    except BreakEx:
+                        return
+                ex.exec_block(st.orelse, env)
+                return
+        if desc.kind == 'str':
+            lit = ex.lit_of(L.StrV(desc.sid))
+            if lit is not None and len(lit) <= 8:
+                for ch in lit:
+                    ex.assign(st.target, ex.str_lit(ch), env)
                     try:
                         ex.exec_block(st.body, env)
                     except ContinueEx:
@@ -411,7 +519,9 @@ class Loops:
         ex.exec_block(inner, cenv)
         return cenv.vars[acc]
 
-    def list_comp(self, ex, node, env):
+    def list_comp(self, ex, node, env, prelude=(), into=None, loop_env=None):
+        """prelude / into / loop_env: the same machinery runs the accumulator idiom
+        `acc = []; for T in IT: <temps>; acc.append(E)` (see accumulator_idiom)"""
         if len(node.generators) != 1:
             return self.nested_comp(ex, node, env, 'list')
         if node.generators[0].is_async:
@@ -419,12 +529,12 @@ class Loops:
         gen = node.generators[0]
         key = self.loop_key(ex, node)
         desc = self.describe(ex, ex.eval(gen.iter, env))
-        cenv = Env(env)
-        res = ex.new_list(z3.IntVal(0), z3.K(I, L.NoneV))
+        cenv = loop_env if loop_env is not None else Env(env)
+        res = into if into is not None else ex.new_list(z3.IntVal(0), z3.K(I, L.NoneV))
         filtered = bool(gen.ifs)
         ex.comp_results = getattr(ex, 'comp_results', [])
 
-        pure = not has_effects([node.elt] + list(gen.ifs)) and not filtered
+        pure = not has_effects([node.elt] + list(gen.ifs) + list(prelude)) and not filtered
         J = z3.Int('K_view')
         body_at_J = None
         if pure and desc.kind in ('seq', 'dictkeys', 'dictvalues', 'dictitems', 'reversed', 'range', 'enumerate', 'zip'):
@@ -432,6 +542,7 @@ class Loops:
                 jenv = Env(env)
                 saved_events = list(ex.events)
                 ex.assign(gen.target, self.elem(ex, desc, J), jenv)
+                ex.exec_block(list(prelude), jenv)
                 body_at_J = ex.to_val(ex.eval(node.elt, jenv))
                 ex.events = saved_events
                 ex.comp_body_at = getattr(ex, 'comp_body_at', {})
@@ -458,26 +569,27 @@ class Loops:
                 c = ex.eval(cnd, cenv)
                 if not ex.branch(ex.truthy(ex.to_val(c)), 'comp-if'):
                     return
+            ex.exec_block(list(prelude), cenv)
             v = ex.to_val(ex.eval(node.elt, cenv))
             n = ex.heap.llen(res)
             ex.event('comp_elem', key, res, i, v)
             ex.list_write('append', res, n + 1, z3.Store(ex.heap.lelts(res), n, v), stored=(v,))
 
-        body_nodes = [node.elt] + list(gen.ifs)
+        body_nodes = [node.elt] + list(gen.ifs) + list(prelude)
         ex.protect(res)      # nobody else can reach the list under construction
         self.run_loop(ex, key, cenv, desc, bind, body, body_nodes, set(), extra, own_lists=[res])
         ex.unprotect(res)
         ex.event('comp_done', key, res, desc)
         return L.ListV(res)
 
-    def dict_comp(self, ex, node, env):
+    def dict_comp(self, ex, node, env, prelude=(), into=None, loop_env=None, mid=()):
         if len(node.generators) != 1:
             return self.nested_comp(ex, node, env, 'dict')
         gen = node.generators[0]
         key = self.loop_key(ex, node)
         desc = self.describe(ex, ex.eval(gen.iter, env))
-        cenv = Env(env)
-        res = ex.new_dict()
+        cenv = loop_env if loop_env is not None else Env(env)
+        res = into if into is not None else ex.new_dict()
 
         def extra(i):
             n = ex.heap.dlen(res)
@@ -493,13 +605,15 @@ class Loops:
                 c = ex.eval(cnd, cenv)
                 if not ex.branch(ex.truthy(ex.to_val(c)), 'comp-if'):
                     return
+            ex.exec_block(list(prelude), cenv)
             k = ex.to_val(ex.eval(node.key, cenv))
+            ex.exec_block(list(mid), cenv)
             v = ex.to_val(ex.eval(node.value, cenv))
             ex.event('dictcomp_elem', key, res, i, k, v)
             self.engine.model.dict_store(ex, res, k, v, internal=True)
 
         ex.protect_dict(res)
-        self.run_loop(ex, key, cenv, desc, bind, body, [node.key, node.value] + list(gen.ifs), set(), extra,
+        self.run_loop(ex, key, cenv, desc, bind, body, [node.key, node.value] + list(gen.ifs) + list(prelude) + list(mid), set(), extra,
                       own_dicts=[res])
         ex.unprotect_dict(res)
         ex.event('dictcomp_done', key, res, desc)
